@@ -154,9 +154,10 @@ def run(ctx, V):
                         k = int(math.log2(npix))
                         tile = T.Tile(Pos(*p), fl, incv)
                         pf = None
-                        if incv == inc:
+                        if incv == inc and so_vs_src["grid_mismatch"] <= 3:
+                            allpx = [(i, j) for i in range(npix) for j in range(npix)]
                             w, arg = grid_vs_centres(T, Pos, systems[planet], tile, k, xs, ys,
-                                                     [(i, j) for i in range(npix) for j in range(npix)][:1024])
+                                                     allpx if len(allpx) <= 64 else rng.sample(allpx, 64))
                             pf = w > 1e-12
                         if so_vs_src["grid_mismatch"] <= 3:
                             V.disagreement("compiled subsample != _subsample source semantics (the .so is stale or the .pyx was edited)",
